@@ -20,6 +20,8 @@ function mk(name, vals, hasReturn, hasThrow, retDone) {
   if (hasThrow) it.throw = function(v) { log(name + '.throw ' + describe(v)); return {value: name + ' thr', done: retDone}; };
   return { [Symbol.iterator]() { return it; } };
 }
+function f2(a, b) { return [a, b]; }
+function reenter(m) { try { log(it[m]('re')); log('reentered'); } catch (e) { log('reenter ' + m + ' ' + e.constructor.name); } }
 function* inner() { try { var a = yield 'i1'; log('inner got ' + describe(a)); yield 'i2'; } finally { log('inner fin'); } return 'inner result'; }
 `
 
@@ -29,7 +31,6 @@ type g2 struct {
 	budget int
 	loops  int
 	async  bool
-	inFin  bool // inside a finally block: only plain yields (known goja defects around exceptions while return() unwinds)
 }
 
 func (g *g2) draw(n int, l string) int { return rapid.IntRange(0, n-1).Draw(g.t, l) }
@@ -69,24 +70,63 @@ func (g *g2) stmts(n int) []*Node {
 
 func (g *g2) stmt() *Node {
 	g.budget--
-	if g.inFin && !g.async {
-		g.n++
-		return Log(Yield(Str(fmt.Sprintf("f%d", g.n))))
-	}
 	if g.budget <= 0 {
 		return Log(g.yieldExpr())
 	}
-	switch g.draw(14, "s") {
+	switch g.draw(24, "s") {
+	case 23:
+		// a call of the running generator's own next/throw/return from inside its body
+		if !g.async {
+			return ExprStmt(Call(Id("reenter"), Str([]string{"next", "throw", "return"}[g.draw(3, "re")])))
+		}
+		return Log(g.yieldExpr())
+	case 13:
+		// yields as both operands of a binary operator: the left value sits on the operand stack across the second suspension
+		return ExprStmt(Set(Id("acc"), Bin("+", Id("acc"), Bin("+", g.yieldExpr(), g.yieldExpr()))))
+	case 14:
+		return Log(Call(Id("f2"), g.yieldExpr(), g.yieldExpr()))
+	case 15:
+		return Log(Obj(PropK(g.yieldExpr(), true, g.yieldExpr())))
+	case 16:
+		g.n++
+		x := fmt.Sprintf("x%d", g.n)
+		return Block2(VarDecl("var", Declarator(ObjPat(PatShorthand(x, g.yieldExpr())), Obj())), Log(Id(x)))
+	case 17:
+		g.n++
+		i := fmt.Sprintf("h%d", g.n)
+		g.loops++
+		body := Block(g.stmts(1)...)
+		g.loops--
+		return For(VarDecl("var", Declarator(Id(i), g.yieldExpr()), Declarator(Id(i+"n"), Num(0))), Bin("<", Id(i+"n"), Num(1)), Update("++", false, Id(i+"n")), body)
+	case 18:
+		return Switch(g.yieldExpr(), Case(g.yieldExpr(), Log(Str("case1"))), DefaultCase(Log(Str("default"))))
+	case 19:
+		// a closure over a local that is read after the resumption
+		g.n++
+		loc := fmt.Sprintf("loc%d", g.n)
+		return Block2(
+			VarDecl("let", Declarator(Id(loc), Str(loc))),
+			VarDecl("const", Declarator(Id(loc+"f"), ArrowExpr(Params(), Id(loc)))),
+			Log(g.yieldExpr()),
+			Log(Call(Id(loc+"f"))),
+			ExprStmt(Set(Id(loc), Str("changed"))),
+			Log(Arr(Call(Id(loc+"f")), g.yieldExpr())))
+	case 20:
+		if !g.async {
+			return Log(Arr(Spread(YieldStar(Call(Id("inner"))))))
+		}
+		return Log(g.yieldExpr())
+	case 21:
+		return Log(Cond(g.yieldExpr(), g.yieldExpr(), g.yieldExpr()))
+	case 22:
+		return Log(Call(Dot(Arr(g.yieldExpr(), g.yieldExpr()), "join"), Str("-")))
 	case 0, 1, 2:
 		return Log(g.yieldExpr())
 	case 3:
 		return ExprStmt(Set(Id("acc"), Bin("+", Id("acc"), Tmpl([]string{"[", "]"}, g.yieldExpr()))))
 	case 4, 5:
 		blk := Block(g.stmts(1 + g.draw(2, "tl"))...)
-		saved := g.inFin
-		g.inFin = true
 		fin := Block(append([]*Node{Log(Str("finally"))}, g.stmts(g.draw(2, "fl"))...)...)
-		g.inFin = saved
 		return Try(blk, nil, nil, fin)
 	case 6:
 		return Try(Block(g.stmts(1+g.draw(2, "tl2"))...), Id("e"), Block(append([]*Node{Log(Id("e"))}, g.stmts(g.draw(2, "cl"))...)...), nil)
@@ -137,15 +177,8 @@ func GenGeneratorCase(t *rapid.T) (*Node, Options, bool) {
 			Log(Str("sync end")))
 	} else {
 		prog.Kids = append(prog.Kids, FuncDecl("generator", "gf", Params(Id("p")), body...), Var("it", Call(Id("gf"), Num(1))))
-		returned := false
 		for i, n := 0, 1+g.draw(6, "hist"); i < n; i++ {
 			m := []string{"next", "next", "next", "throw", "return"}[g.draw(5, "m")]
-			if returned && m == "throw" {
-				// known goja defect: throw() into a generator that is suspended inside a
-				// finally block run by return() escapes the caller's try/catch
-				m = "next"
-			}
-			returned = returned || m == "return"
 			if m != "next" {
 				nonPlainNext = true
 			}
@@ -156,8 +189,6 @@ func GenGeneratorCase(t *rapid.T) (*Node, Options, bool) {
 		prog.Kids = append(prog.Kids, Log(Id("acc")))
 	}
 	opt := Options{Strict: rapid.Bool().Draw(t, "strict"), Placement: placements[rapid.IntRange(0, 2).Draw(t, "pl")], MaxSteps: 50000}
-	if opt.Placement == "eval" && !opt.Strict {
-		opt.Placement = "function" // the prelude declares functions next to top-level code; avoid the known global-eval closure defect
-	}
+	flattenKids(prog)
 	return prog, opt, nonPlainNext || g.async
 }
